@@ -1,0 +1,19 @@
+//go:build verif
+
+package ememorystore
+
+// Add-only helper used by the model-based verification harness (/verif, family "sharderfin"):
+// closes the RocksDB behind a pool and forgets the pool, so that a harness can model a process
+// restart (close + reopen of the same directory) or give every recorded history fresh stores.
+
+// VerifClosePool closes and removes the pool registered under dbid (no-op when there is none).
+func VerifClosePool(dbid string) {
+	p, ok := pools[dbid]
+	if !ok {
+		return
+	}
+	if p.Pool != nil {
+		p.Pool.Close()
+	}
+	delete(pools, dbid)
+}
